@@ -1331,6 +1331,42 @@ def run(tier, replay=None):
                        'the column) is rejected with a type error, whatever the order of the rules'})
         break
 
+  # --- the record captured with `..r` is CLOSED: it has exactly the arguments of the predicate
+  stats['rest_capture_orders'] = 0
+  for inst in range(5 if tier == 'quick' else 30):
+    fa, fb = fam_r.sample(['a', 'b', 'k', 'w'], 2)
+    facts = 'Tr(%s: 1, %s: "x");\nTr(%s: 2, %s: "y");\n' % (fa, fb, fa, fb)
+    rec_ty = '{%s}' % ', '.join('%s: %s' % kv for kv in sorted([(fa, 'Num'), (fb, 'Str')]))
+    mode = ['whole', 'field', 'missing_field', 'extra_field_literal', 'same_fields_literal'][inst % 5]
+    if mode == 'whole':
+      conj, exp = ['Tr(..r)'], {'Q': 'type Q(%s);' % rec_ty}
+      head = 'r'
+    elif mode == 'field':
+      f, ty = fam_r.choice([(fa, 'Num'), (fb, 'Str')])
+      conj, exp, head = ['Tr(..r)', 'x == r.%s' % f], {'Q': 'type Q(%s);' % ty}, 'x'
+    elif mode == 'missing_field':
+      conj, exp, head = ['Tr(..r)', 'x == r.zz'], None, 'x'
+    elif mode == 'extra_field_literal':
+      conj, exp, head = ['Tr(..r)', 'r == {%s: 1, %s: "x", zz: true}' % (fa, fb)], None, 'r'
+    else:
+      conj, exp, head = ['Tr(..r)', 'r == {%s: 1, %s: "x"}' % (fa, fb)], {'Q': 'type Q(%s);' % rec_ty}, 'r'
+    for order in itertools.permutations(conj):
+      text = HEADER + facts + 'Q(%s) :- %s;\n' % (head, ', '.join(order))
+      fc = full_check(text, ['Q'], compile_preds=False)
+      stats['rest_capture_orders'] += 1
+      if exp is not None:
+        if fc['status'] != 'ok' or fc['sigs'].get('Q') != exp['Q']:
+          report('rest-capture:%s' % ('signature' if fc['status'] == 'ok' else fc['status']),
+                 {'kind': 'accept', 'text': text, 'expected': exp, 'observed': fc,
+                  'law': '(a) the record captured with ..r has exactly the arguments of the predicate, with their types'})
+          break
+      elif fc['status'] != 'TypeError':
+        report('rest-capture-clash:%s:%s' % (mode, 'accepted' if fc['status'] == 'ok' else fc['status']),
+               {'kind': 'reject', 'text': text, 'observed': fc,
+                'law': '(b) the record captured with ..r is closed: a field the predicate does not have clashes, whatever '
+                       'the order of the conjuncts'})
+        break
+
   for name, body, exp, n_comb in FIXED:
     text = HEADER + body
     fc = full_check(text, list(exp), compile_preds=True)
